@@ -11,7 +11,7 @@ import Engeom.Generated.Consts
 namespace C16T
 set_option linter.unusedSectionVars false
 variable {α : Type} [Add α] [Sub α] [Mul α] [Div α] [Neg α] [LT α] [LE α]
-  [DecidableLT α] [DecidableLE α] [OfNat α 0] [OfNat α 1] [OfNat α 2] [Scalar α]
+  [DecidableLT α] [DecidableLE α] [OfNat α 0] [OfNat α 1] [OfNat α 2] [Scalar α] [Inhabited α]
 
 theorem curve_dev_normal_eq (p0 n q : V2 α) :
     GenRs.curve_dev_normal (V2.sub q p0) ⟨p0, n⟩ = curveDevNormal p0 n q := rfl
@@ -19,4 +19,43 @@ theorem curve_dev_normal_eq (p0 n q : V2 α) :
 theorem mesh_dev_dir_eq (c n q : V3 α) (m : DistMode) :
     GenRs.mesh_dev_dir q ⟨c, n⟩ m = meshDevDir c n q m := by
   cases m <;> rfl
+
+/-! ### `SurfaceDeviationSet` (the cached indices of the extreme deviations) -/
+
+/-- `SurfaceDeviationSet::new`: `enumerate().max_by(..)` / `min_by(..)` are, by the contracts of
+    `Iterator::max_by` (the LAST maximal element) and `min_by` (the FIRST minimal one), the model's scans -/
+theorem devset_new_eq (vs : List α) :
+    (DevSet.new vs).maxIdx = (GenRs.devset_new vs).1 ∧ (DevSet.new vs).minIdx = (GenRs.devset_new vs).2 :=
+  ⟨rfl, rfl⟩
+
+/-- `SurfaceDeviationSet::push` on a set whose cached indices are in range (the invariant `DevSetInv` of
+    Props/C16, preserved by every operation): the regenerated body is the model's `DevSet.push` -/
+theorem devset_push_eq (s : DevSet α) (d : α)
+    (hmax : ∀ i, s.maxIdx = some i → i < s.values.length) (hmin : ∀ i, s.minIdx = some i → i < s.values.length) :
+    GenRs.devset_push s.values s.maxIdx s.minIdx d = ((s.push d).values, (s.push d).maxIdx, (s.push d).minIdx) := by
+  unfold GenRs.devset_push DevSet.push getAt
+  have hget : ∀ i, i < s.values.length → s.values.getD i default = (s.values[i]?).getD d := by
+    intro i hi
+    simp [List.getD_eq_getElem?_getD, List.getElem?_eq_getElem hi]
+  cases hmx : s.maxIdx with
+  | none =>
+    cases hmn : s.minIdx with
+    | none => simp
+    | some j =>
+      have hj := hmin j hmn
+      simp only [Option.isNone_none, Option.isNone_some, Bool.true_or, Bool.false_or, if_true, Option.getD_some]
+      simp only [hget j hj]
+      by_cases h : d < (s.values[j]?).getD d <;> simp [h]
+  | some i =>
+    have hi := hmax i hmx
+    cases hmn : s.minIdx with
+    | none =>
+      simp only [Option.isNone_none, Option.isNone_some, Bool.true_or, Bool.false_or, if_true, Option.getD_some]
+      simp only [hget i hi]
+      by_cases h : (s.values[i]?).getD d < d <;> simp [h]
+    | some j =>
+      have hj := hmin j hmn
+      simp only [Option.isNone_some, Bool.false_or, Option.getD_some]
+      simp only [hget i hi, hget j hj]
+      by_cases h : (s.values[i]?).getD d < d <;> by_cases h2 : d < (s.values[j]?).getD d <;> simp [h, h2]
 end C16T
